@@ -85,7 +85,10 @@ def execute(cell, late_at=None):
         return dict(id=f"m{i}", topic=f"job_{q}", queue=q, payload='{"i":%d}' % i,
                     params=lambda w: w.params(retries=1, timeout=50.0))
 
-    msgs = [msg(i) for i in range(n)] if cell["arrival"] == "before" else []
+    # "tail": the worker is saturated by queue q alone; the last message of q arrives 2 ms after the
+    # first job has finished (the swept extra message goes to q2 and lands around that finish)
+    used = list(range(n)) if cell["arrival"] != "tail" else list(range(0, n, 2))
+    msgs = [msg(i) for i in used] if cell["arrival"] == "before" else [msg(i) for i in used[:-1]] if cell["arrival"] == "tail" else []
 
     async def during(x):
         w = x.world
@@ -97,6 +100,10 @@ def execute(cell, late_at=None):
             for i in range(1, n):
                 m_ = msg(i)
                 await w.broker.enqueue(w.key(m_["id"], m_["topic"], m_["queue"]), m_["payload"], m_["params"](w))
+        if cell["arrival"] == "tail":
+            await asyncio.sleep(durs[0] + 0.002)
+            m_ = msg(used[-1])
+            await w.broker.enqueue(w.key(m_["id"], m_["topic"], m_["queue"]), m_["payload"], m_["params"](w))
 
     def inject(x):
         if extra:
@@ -134,7 +141,7 @@ def execute(cell, late_at=None):
                                               f"the next actor started {'never' if nxt is None else '%.3fs later' % ((nxt - t) / NS)}"))
                     break
     # an invocation that ends cancelled is a failed execution: retried once (retries=1), like job `fail`
-    want_runs = {f"m{i}": (2 if cell["fail"] == i or (cell["fail"] == "cancelled" and i == 1) else 1) for i in range(n)}
+    want_runs = {f"m{i}": (2 if cell["fail"] == i or (cell["fail"] == "cancelled" and i == 1) else 1) for i in used}
     if extra:
         enq = [r[0] for r in res.log if r[1] == "call" and r[2] == "enqueue" and r[3] == f"m{n}"]
         if enq and res.stop_ns is not None and enq[0] <= res.stop_ns - round((ALLOW[kind] + 0.03) * NS):
@@ -163,6 +170,16 @@ def jobs(tier):
     for kind in ("mem", "redis", "amqp"):
         for L in (1, 2):
             cell = dict(kind=kind, L=L, nq=1, fail=None, arrival="before", assign=[2, 2, 1])
+            base, _, _ = execute(cell)
+            ks = list(range(0, base.iters))
+            for lo in range(0, len(ks), 50):
+                out.append(dict(sweep=cell, ks=ks[lo:lo + 50]))
+            # two queues: a message for the second queue arrives while the first queue saturates the
+            # worker (every iteration, so also while its consumer is being paused and a slot frees up),
+            # and the first queue gets one more message afterwards
+            n = 2 * L + 1
+            cell = dict(kind=kind, L=L, nq=2, fail=None, arrival="tail",
+                        assign=[2 if i in (0, n - 1) else 3 for i in range(n)])
             base, _, _ = execute(cell)
             ks = list(range(0, base.iters))
             for lo in range(0, len(ks), 50):
